@@ -212,9 +212,50 @@ def _fixed_cases():
          'mid': 1, 'buf': 1, 'seed': 0}
 
 
+GRID_IDS = [b'', b'a', b'a\x00', b'a\x00\x00', b'a\x01', b'ab', b'b', b'\xff', b'\xff\xff', b'\x00', b'aa']
+
+
+def _grid_cases(tier, rng):
+  """Exhaustive grids on small universes.
+  shuffle grid: n clients (0..6) x buffer_size 1..8 x 3 consecutive passes, every pipeline;
+  slice grid:   EVERY (start, stop) pair over a universe of 9-11 ids (prefixes, trailing zero bytes, b'', 0xff) and None,
+                sliced off the final view of every pipeline (after 0-2 earlier operations)."""
+  base = {'aliens': [], 'reqs': [[]], 'mid': 0, 'buf': 2, 'wk': 0, 'wn': 0, 'forms': 0, 'bufnp': False}
+  for n in range(0, 7):
+    ids = [b'c%d' % j + (b'\x00' if j % 3 == 0 else b'') for j in range(n)]
+    rng.shuffle(ids)
+    ds = [[hx(i), [13 * j + 1] * (j % 3)] for j, i in enumerate(ids)]
+    yield {**base, 'ds': ds, 'ops': [], 'seed': n, 'lay': n, 'bufs': list(range(1, 9)), 'npass': 3, 'kind': 'shuffle-grid'}
+    if n >= 3 and tier != 'quick':
+      yield {**base, 'ds': ds, 'ops': [['slice', hx(b'c1'), None], ['prec', ['dup']]], 'seed': 0, 'lay': n + 1,
+             'bufs': list(range(1, 9)), 'npass': 3, 'kind': 'shuffle-grid'}
+  for g in range(4 if tier == 'quick' else 24):
+    uni = list(GRID_IDS[:9 + g % 3])
+    rng.shuffle(uni)
+    k = rng.randrange(5, len(uni) - 1)
+    ds = [[hx(i), [13 * j + 2] * (j % 2)] for j, i in enumerate(uni[:k])]
+    aliens = [hx(i) for i in uni[k:]]
+    pre = [[], [['slice', hx(b'a'), hx(b'b')]], [['subset', [hx(i) for i in uni[:k:2]]]],
+           [['slice', None, hx(b'\xff')], ['slice', hx(b''), None]]][g % 4]
+    yield {**base, 'ds': ds, 'aliens': aliens, 'ops': pre, 'seed': g, 'lay': g, 'forms': g,
+           'bounds': [None] + [hx(i) for i in uni], 'kind': 'slice-grid'}
+
+
+def _xproc_cases(tier, rng):
+  """Cases whose final views are observed a second time in ANOTHER interpreter process (different
+  PYTHONHASHSEED) that opens the SQLite file this process wrote."""
+  for _ in range(1 if tier == 'quick' else 6):
+    c = gen_case(rng)
+    while len(c['ds']) < 3 or not c['ops'] or c['seed'] is None:
+      c = gen_case(rng)
+    yield {**c, 'xproc': rng.randrange(1, 10 ** 6), 'kind': 'cross-process'}
+
+
 def generate(tier, rng):
   if tier != 'search':
     yield from _fixed_cases()
+    yield from _grid_cases(tier, rng)
+    yield from _xproc_cases(tier, rng)
   n = {'quick': 280, 'thorough': 2400, 'search': 4000}[tier]
   for _ in range(n):
     yield gen_case(rng)
@@ -617,6 +658,52 @@ def _observe(fd, universe, reqs, buf, seed, others=None, forms=0):
   return o
 
 
+def _final_views(case, path):
+  """The four pipelines of `case` over an EXISTING SQLite file; returns the plain observation of each final view."""
+  import sqlite3
+  from fedjax.core import federated_data as fdm
+  from fedjax.core import in_memory_federated_data as imm
+  from fedjax.core import sqlite_federated_data as sqm
+  wk, forms, wn, lay = case.get('wk', 0), case.get('forms', 0), case.get('wn', 0), case.get('lay')
+  ds = [(unhx(i), rows) for i, rows in case['ds']]
+  ids = [i for i, _ in ds]
+  universe = ids + [unhx(a) for a in case['aliens']]
+  reqs = [[unhx(i) for i in r] for r in case['reqs']]
+  buf = np.int64(case['buf']) if case.get('bufnp') else case['buf']
+  owned = {i: _examples(rows, wk, forms + k if k else 0, wn, None if lay is None else lay + k) for k, (i, rows) in enumerate(ds)}
+  mem = imm.InMemoryFederatedData(owned)
+  sql = sqm.SQLiteFederatedData.new(path)
+  conn2 = sqlite3.connect(path)
+  sql2 = sqm.SQLiteFederatedData(conn2, sqm.decompress_and_deserialize)
+  roots = {'mem': mem, 'sql': sql, 'submem': fdm.SubsetFederatedData(mem, set(ids)), 'subsql': fdm.SubsetFederatedData(sql2, set(ids))}
+  out = {}
+  for pi, p in enumerate(PIPES):
+    cur = roots[p]
+    for oi, o in enumerate(case['ops']):
+      cur, _r, _ok = _apply(fdm, cur, o, forms + oi + pi)
+    out[p] = _observe(cur, universe, reqs, buf, case['seed'], None, forms + pi)
+  conn2.close()
+  return out
+
+
+def _second_process(case, path, mine):
+  """Runs _final_views in a fresh interpreter with another PYTHONHASHSEED on the file written here."""
+  import json
+  import subprocess
+  import sys
+  env = dict(os.environ)
+  env['PYTHONHASHSEED'] = str(case['xproc'])
+  cj = os.path.join(os.path.dirname(path), 'case.json')
+  with open(cj, 'w') as f:
+    json.dump({'case': case, 'path': path}, f)
+  r = subprocess.run([sys.executable, os.path.abspath(__file__), cj], env=env, capture_output=True, text=True, timeout=50)
+  if r.returncode != 0:
+    return {'error': (r.stderr or r.stdout)[-400:]}
+  theirs = json.loads(r.stdout.strip().split('\n')[-1])
+  mine = json.loads(json.dumps(mine))
+  return {'differs': [p for p in PIPES if theirs.get(p) != mine[p]], 'hashseed': case['xproc']}
+
+
 def _snapshot(mapping):
   """Array-level and container-level state of a caller-owned {id: {feature: array}} mapping."""
   return [[hx(i), [[k, v.dtype.str, list(v.shape), ([hx(e) for e in v] if v.dtype == object else v.tobytes().hex()), id(v)]
@@ -756,7 +843,33 @@ def run(case):
     def stable(o):   # with seed=None two shuffles legitimately differ
       return {f: x for f, x in o.items() if f != 'inter' and not (f == 'shuffled' and seed is None)}
     changed = [[p, k] for p in PIPES for k in range(len(views[p])) if stable(before[p][k]) != stable(after[p][k])]
-    return {'views': after, 'refused': refused, 'changed': changed, 'ctor': ctor_obs,
+    grid = {}
+    if case.get('bufs') or case.get('bounds'):
+      for p in PIPES:
+        v = views[p][-1]
+        g = {}
+        n = after[p][-1]['num'][1] if after[p][-1]['num'][0] == 'V' else 0
+        if case.get('bufs') and n > 0:      # buffer sizes x consecutive passes
+          g['shuf'] = [[b_] + _shuffled(v, b_, seed, case.get('npass', 3) * n) for b_ in case['bufs']]
+        if case.get('bounds'):              # every (start, stop) pair
+          masks = []
+          bnds = [unhx(h) for h in case['bounds']]
+          for st in bnds:
+            for sp in bnds:
+              def one(st=st, sp=sp):
+                w = v.slice(st, sp)
+                got = list(w.client_ids())
+                if int(w.num_clients()) != len(got) or len(set(got)) != len(got) or any(i not in universe for i in got):
+                  return -2
+                return sum(1 << universe.index(i) for i in got)
+              r = _call(one)
+              masks.append(r[1] if r[0] == 'V' else -3)
+          g['slice'] = masks
+        grid[p] = g
+    xproc = None
+    if case.get('xproc'):
+      xproc = _second_process(case, path, {p: stable(after[p][-1]) for p in PIPES})
+    return {'views': after, 'refused': refused, 'changed': changed, 'ctor': ctor_obs, 'grid': grid, 'xproc': xproc,
             'caller_intact': bool(intact and _snapshot(owned) == snap and all_ids_set == set(ids) and
                                   list(owned) == ids and
                                   all(list(e) == list(_examples([], wk, forms + k if k else 0, wn, lay)) for k, e in enumerate(owned.values()))),
@@ -961,6 +1074,15 @@ def oracle(case, obs):
           '(shuffle(list) permutes, randint(buffer_size) in [0, buffer_size))')
     for i, r in zip(universe, o['get']):
       if i in vis and r != ['V', want[i]]:
+        # the clause "preprocessors run in registration order (client-level before batch-level)" has its own key:
+        # the observed examples are what ANOTHER order of the same functions would produce
+        alts = []
+        if r[0] == 'V' and 2 <= len(cc) + len(bc) and len(cc) <= 4 and len(bc) <= 4:
+          alts = [(c2, b2) for c2 in itertools.permutations(cc) for b2 in itertools.permutations(bc)
+                  if (list(c2), list(b2)) != (cc, bc)]
+        if any(r[1] == _ref_dataset(stored, i, list(c2), list(b2), wk, case.get('wn', 0), case.get('lay')) for c2, b2 in alts):
+          bad('preprocess-order', f'{where}: get_client({i!r}) returns the examples another ORDER of the registered functions '
+              f'would give; registered: client chain {cc}, then batch chain {bc}')
         bad('get-client', f'{where}: get_client({i!r}) = {r}, expected {want[i]} (client chain {cc} then batch chain {bc})')
       if i not in vis and r != ['K']:
         bad('outside-keyerror', f'{where}: get_client({i!r}) = {r} for an id outside the view (KeyError expected)')
@@ -989,6 +1111,35 @@ def oracle(case, obs):
     vis, cc, bc = ref[-1]
     check_view(f'{p} built with the preprocessor chains as constructor arguments, then sliced', o, vis, cc, bc,
                lambda key, msg: bad('ctor-chain-differs', f'[{key}] {msg}'))
+  for p, g in obs.get('grid', {}).items():
+    vis, cc, bc = ref[-1]
+    want = {i: _ref_dataset(stored, i, cc, bc, wk, case.get('wn', 0), case.get('lay')) for i in vis}
+    items = sorted(([hx(i), want[i]] for i in vis), key=lambda kv: kv[0])
+    n = len(vis)
+    for b_, got, end, rec in g.get('shuf', []):
+      npass = case.get('npass', 3)
+      if end != 'D' or len(got) != npass * n or any(sorted(got[k * n:(k + 1) * n], key=lambda kv: kv[0]) != items for k in range(npass)):
+        bad('shuffled-pass', f'{p}, {n} clients, buffer_size {b_}: one of {npass} consecutive passes of shuffled_clients() does not visit '
+            f'every client exactly once: {[c for c, _ in got]} ending {end}')
+      if not rec['contract']:
+        bad('rng-contract', f'{p}, buffer_size {b_}: RandomState used outside the modelled contract')
+    if 'slice' in g:
+      bnds = [unhx(h) for h in case['bounds']]
+      k = 0
+      for st in bnds:
+        for sp in bnds:
+          exp = sum(1 << universe.index(i) for i in vis if (st is None or _ble(st, i)) and (sp is None or _blt(i, sp)))
+          if g['slice'][k] != exp:
+            bad('slice-grid', f'{p}: slice({st!r}, {sp!r}) of the final view exposes the id set {g["slice"][k]:#b} (bit j = universe[j]; '
+                f'negative = inconsistent count / foreign id / exception), expected {exp:#b}: exactly the ids with start <= id < stop')
+          k += 1
+  xp = obs.get('xproc')
+  if xp is not None:
+    if 'error' in xp:
+      bad('cross-process-differs', 'the second interpreter process failed: ' + xp['error'])
+    elif xp['differs']:
+      bad('cross-process-differs', f'another interpreter process (PYTHONHASHSEED={xp["hashseed"]}) reading the same SQLite file / the same '
+          f'mapping observes different final views for {xp["differs"]} (ids, order, sizes, examples or the seeded shuffled pass)')
   for p, k in obs['changed']:
     bad('parent-changed', f'{p}: the view after {k} operations answers differently once further views were derived from it')
   if not obs.get('caller_intact', True):
@@ -1051,27 +1202,39 @@ def encode(case, obs):
 
   B = case['buf']
 
-  def passes(o, n, npass=2):
+  def grid_passes(p, n):
+    out = []
+    for b_, got, _end, rec in obs.get('grid', {}).get(p, {}).get('shuf', []):
+      npass = case.get('npass', 3)
+      per = max(0, n - b_)
+      for k in range(npass):
+        code = rec['codes'][k] if k < len(rec['codes']) else []
+        dr = [d[1] if d[0] == b_ else -b_ - 1 for d in rec['draws'][k * per:(k + 1) * per]]
+        out.append(f'({b_}, {fw.natlist(code)}, {fw.zlist(dr)}, ' +
+                   fw.clist([f'({ix(c)}, {dobs(d)})' for c, d in got[k * n:(k + 1) * n]]) + ')')
+    return out
+
+  def passes(o, n, npass=2, extra=()):
     """[(code, draws, items)] for the two recorded passes; a recording of another shape is passed on
     as it is (the model then disagrees: fail closed)."""
     items, rec = o['shuffled'][0], o['shuffled'][2]
     if n == 0:
-      return '[]'
+      return fw.clist(list(extra))
     per = max(0, n - B)
     out = []
     for k in range(npass):
       code = rec['codes'][k] if k < len(rec['codes']) else []
       dr = [d[1] if d[0] == B else -B - 1 for d in rec['draws'][k * per:(k + 1) * per]]
-      out.append(f'({fw.natlist(code)}, {fw.zlist(dr)}, ' +
+      out.append(f'({B}, {fw.natlist(code)}, {fw.zlist(dr)}, ' +
                  fw.clist([f'({ix(c)}, {dobs(d)})' for c, d in items[k * n:(k + 1) * n]]) + ')')
     if len(rec['codes']) != npass or len(rec['draws']) != npass * per or rec['n_rng'] != 1:
-      out.append('([], [], [])')
-    return fw.clist(out)
+      out.append('(0, [], [], [])')
+    return fw.clist(out + list(extra))
 
   entries = []
   nops = len(case['ops'])
   for p in PIPES:
-    todo = [(k, obs['views'][p][k], 2) for k in sorted({min(case.get('mid', 0), nops), nops})]
+    todo = [(k, obs['views'][p][k], 2, k == nops) for k in sorted({min(case.get('mid', 0), nops), nops})]
     it = obs['views'][p][nops].get('inter')
     if it is not None and p in ('sql', 'submem'):   # (the oracle judges all four; Coq re-evaluates two to keep the shard small)
       # the final view once more with its INTERLEAVED iterations in place of the plain ones (one shuffled pass)
@@ -1080,19 +1243,21 @@ def encode(case, obs):
       o2['ids'] = ['V', it['ids'][0]] if it['ids'][1] == 'D' else ['X']
       o2['sizes'] = ['V', it['sizes'][0]] if it['sizes'][1] == 'D' else ['X']
       o2['shuffled'] = it['shuffled']
-      todo.append((nops, o2, 1))
-    for k, o, npass in todo:
+      todo.append((nops, o2, 1, False))
+    for k, o, npass, with_grid in todo:
       n = o['num'][1] if o['num'][0] == 'V' else 0
       v = ('mkV (' + er(o['num'], fw.zlit) + ') (' + er(o['ids'], lambda l: fw.zlist([ix(h) for h in l])) + ') (' +
            er(o['sizes'], lambda l: fw.clist([f'({ix(h)}, {fw.zlit(z)})' for h, z in l])) + ') ' +
            fw.clist([er(r, fw.zlit) for r in o['size']]) + ' ' + stream(o['clients']) + ' ' +
-           passes(o, n, npass) + ' ' +
+           passes(o, n, npass, grid_passes(p, n) if with_grid else ()) + ' ' +
            fw.clist([er(r, dobs) for r in o['get']]) + ' ' + fw.clist([stream(g) for g in o['gets']]))
       entries.append(f'({COQ_PIPE[p]}, {k}, {fw.blist(obs["refused"][p][:k])}, {v})')
   ds = fw.clist([f'({_B(unhx(i))}, {fw.zlist(rows)})' for i, rows in case['ds']])
   c = (f'mkC08 {ds} {fw.clist([_B(unhx(a)) for a in case["aliens"]])} {fw.clist([_op(o) for o in case["ops"]])} '
-       f'{fw.clist([fw.clist([_B(unhx(i)) for i in r]) for r in case["reqs"]])} {B}')
-  return f'({c},\n {fw.clist(entries)})'
+       f'{fw.clist([fw.clist([_B(unhx(i)) for i in r]) for r in case["reqs"]])} '
+       f'{fw.clist([_optB(h) for h in case.get("bounds", [])])}')
+  grids = [f'({COQ_PIPE[p]}, {fw.zlist(g["slice"])})' for p, g in obs.get('grid', {}).items() if 'slice' in g]
+  return f'({c},\n ({fw.clist(entries)}, ({fw.clist(grids)} : list (pipeline * list Z))))'
 
 
 def nontrivial(case, obs):
@@ -1108,6 +1273,7 @@ def describe(case, obs):
           # hypothesis of the theorems: distinct client ids (a case that violated it would be counted here; none can,
           # ids are drawn without repetition and become dict keys / a PRIMARY KEY)
           'hyp_distinct_ids': len({i for i, _ in case['ds']}) == len(case['ds']),
+          'kind': case.get('kind', 'random'),
           'w_dtype': WKINDS[case.get('wk', 0)], 'w_name': WNAMES[case.get('wn', 0)] or "''"}
 
 
@@ -1124,3 +1290,13 @@ def shrink(case):
   for k, (i, rows) in enumerate(case['ds']):
     if rows:
       yield {**case, 'ds': case['ds'][:k] + [[i, rows[:-1]]] + case['ds'][k + 1:]}
+
+
+if __name__ == '__main__':     # the second interpreter process of a cross-process case
+  import json
+  import sys
+  with open(sys.argv[1]) as _f:
+    _j = json.load(_f)
+  _o = _final_views(_j['case'], _j['path'])
+  _seed = _j['case']['seed']
+  print(json.dumps({p: {f: x for f, x in o.items() if f != 'inter' and not (f == 'shuffled' and _seed is None)} for p, o in _o.items()}))
